@@ -169,6 +169,10 @@ func (g *gen) call(c *ast.CallExpr, deferred bool) []string {
 			}
 		}
 	}
+	if strings.HasSuffix(fn, ".TryLock") || strings.HasSuffix(fn, ".TryRLock") {
+		// only the spin form `for !mu.TryLock() { ... }` is understood (see ForStmt)
+		return []string{"Irregular " + q("conditional lock acquisition "+fn)}
+	}
 	// arguments first (reads), delete(...) writes its first argument
 	write := map[string]bool{}
 	if fn == "delete" && len(c.Args) > 0 {
@@ -335,6 +339,22 @@ func (g *gen) stmt(s ast.Stmt) string {
 		}
 		return seq(append(pre, branch([]string{g.block(x.Body), els})))
 	case *ast.ForStmt:
+		// for !mu.TryLock() { body }: the body runs without the lock (a failed attempt acquires nothing),
+		// the loop is left holding it
+		if u, ok := x.Cond.(*ast.UnaryExpr); ok && u.Op == token.NOT && x.Init == nil && x.Post == nil {
+			if c, ok := u.X.(*ast.CallExpr); ok {
+				fn := sel(c.Fun)
+				for suf, w := range map[string]bool{".TryLock": true, ".TryRLock": false} {
+					if strings.HasSuffix(fn, suf) {
+						l, ok := locks[strings.TrimSuffix(fn, suf)]
+						if !ok {
+							return "Irregular " + q("lock operation on "+fn)
+						}
+						return seq([]string{loop(g.block(x.Body)), fmt.Sprintf("TryAcq %s %v", l, w)})
+					}
+				}
+			}
+		}
 		pre := []string{g.stmt(x.Init)}
 		body := []string{}
 		body = append(body, g.expr(x.Cond)...)
